@@ -5,14 +5,14 @@ sys.path.insert(0, os.path.dirname(os.path.abspath(__file__)))
 import props
 
 NA = {
- 'C01': 'effective-logger resolution (ConfiguredLogger::add/find, the length sort) is built on Pattern-generic str::split/find and HashMap::get_mut, which Verus rejects, and CBMC does not terminate on even one concrete three-logger configuration (25 min); the node-local half is decided under C02/C03',
+ 'C01': 'effective-logger resolution (ConfiguredLogger::add/find, the length sort) is out of reach of both verifiers: in Verus str::find/split can be given contracts (external_trait_specification for Pattern + --no-trait-conflicts), but as soon as the unit also contains a HashMap (any use of Clone) Verus dies with an internal error on Split<P>: Clone, whose bound names the GAT Pattern::Searcher that an external trait specification cannot declare; CBMC does not terminate on even one concrete three-logger configuration (hashbrown + TwoWaySearcher, 25 min); the node-local half (threshold, fan-out) is decided under C02/C03',
  'C04': 'quantifies over thread schedules and other readers of a real file; Kani has no threads and ICEs on parking_lot::Mutex::lock; no sequential postcondition is expressible on FileAppender::append(&self) over the File it mutates',
  'C05': 'whole-history property over real directory states and schedules; its per-call mechanisms are decided under C06 (accounting, size trigger), C07 (rotate) and C08 (process/roll/faults)',
  'C09': 'denotation of a recursive grammar through write!/thread::current()/chrono/log_mdc: Verus rejects format macros and ref patterns, Kani ICEs on thread::current and does not finish on the parser (Unicode tables)',
  'C12': 'correctness is serde_json escaping and serde derive attributes over chrono/thread ids; no function of log4rs computes the bytes, so no contract on log4rs code can express it',
  'C14': 'behaviour is #[derive(Deserialize)] + deny_unknown_fields + three third-party parsers; derive-generated code is outside both verifiers',
  'C15': 'atomicity under schedules belongs to arc_swap (Kani ICE, no threads; Verus would need its permission types, i.e. a rewrite); the reloader is fs::metadata + thread::sleep',
- 'C19': 'expand_env_vars is built on match_indices/replace (Pattern-generic, rejected by Verus) and CBMC does not finish one fully concrete 16-byte path in 15 min, so not even a bounded stand-in exists',
+ 'C19': 'expand_env_vars is built on match_indices/replace over Cow<str>: the MatchIndices<P>: Clone impl triggers the same Verus internal error as in C01 (GAT Pattern::Searcher), and CBMC does not finish one fully concrete 16-byte path in 15 min, so not even a bounded stand-in exists',
 }
 
 def main():
